@@ -62,9 +62,10 @@ def _task(t):
     outcomes = set()
     viols = {}
     extra = {}
-    growing = n > 16 and any(op in ("pow", "lshift", "rshift") for op in O.expr_ops(prog["expr"]))
+    structured = isinstance(vals, E.Structured)
+    growing = (n > 16 or structured) and any(op in ("pow", "lshift", "rshift") for op in O.expr_ops(prog["expr"]))
     for vec in E.input_vectors(prog, vals):
-        if growing and len(vec) > 1 and abs(vec[1]) > 1024:
+        if growing and len(vec) > 1 and abs(vec[1]) > (40 if structured else 1024):
             # exponents / shift counts of 2^32 and more: the library multiplies that many times (no answer to compare)
             st["skipped_huge_exponent"] = st.get("skipped_huge_exponent", 0) + 1
             continue
@@ -135,7 +136,7 @@ def sweep(ctx, progs, configs, oracle_path, modes=E.MODES, want_trace=False,
     ctx.cov["states"] = ctx.cov.get("states", 0) + len(states)
     ctx.cov["programs"] = ctx.cov.get("programs", 0) + len(progs)
     ctx.cov["configs"] = ctx.cov.get("configs", []) + [
-        {"bitlength": n, "field_bits": p.bit_length(), "values": len(vals)} for n, p, vals in configs]
+        {"bitlength": n, "field_bits": p.bit_length(), "values": len(vals), "structured": isinstance(vals, E.Structured)} for n, p, vals in configs]
     single = sorted(k for k, v in per_op_outcomes.items() if v <= 1)
     ctx.cov["programs_with_single_outcome"] = ctx.cov.get("programs_with_single_outcome", []) + single
     ctx.cov["distinct_outcomes"] = ctx.cov.get("distinct_outcomes", 0) + sum(per_op_outcomes.values())
